@@ -549,41 +549,62 @@ func nativeOf(v any) (stk.Stack, bool) {
 	return stk.Stack{}, false
 }
 
-// aliasPolicyProbe: a nested Stack child that carries its OWN equality policy
-// (here: one that always objects) must make the parent's IsEqual say the same
-// thing whether that child is held natively or through an alias.
+// aliasPolicyProbe: a nested Stack child that carries a policy of its OWN - an
+// equality policy that always objects, a validity policy that always fails -
+// must make the parent answer the same whether that child is held natively or
+// through an alias.
 func aliasPolicyProbe(in *AliasInput) (problem string) {
 	defer func() {
 		if r := recover(); r != nil {
 			problem = fmt.Sprintf("policy probe panicked: %v", r)
 		}
 	}()
-	verdict := func(inst *AliasInst) (string, bool) {
-		root, ok := inst.Tree.Build().(stk.Stack)
-		other, ok2 := in.Insts[0].Tree.Build().(stk.Stack)
-		if !ok || !ok2 {
-			return "", false
-		}
-		found := false
-		for i := 0; i < root.Len() && !found; i++ {
-			v, _ := root.Index(i)
-			if child, isStack := nativeOf(v); isStack {
-				child.SetEqualityPolicy(func(any, any) error { return fmt.Errorf("the child's own policy objects") })
-				found = true
+	installers := []struct {
+		name string
+		fn   func(stk.Stack)
+	}{
+		{"equality policy", func(c stk.Stack) {
+			c.SetEqualityPolicy(func(any, any) error { return fmt.Errorf("the child's own policy objects") })
+		}},
+		{"validity policy", func(c stk.Stack) {
+			c.SetValidityPolicy(func(...any) error { return fmt.Errorf("the child's own policy fails") })
+		}},
+	}
+	for _, ins := range installers {
+		answers := func(inst *AliasInst) (string, bool) {
+			root, ok := inst.Tree.Build().(stk.Stack)
+			other, ok2 := in.Insts[0].Tree.Build().(stk.Stack)
+			if !ok || !ok2 {
+				return "", false
 			}
+			found := false
+			for i := 0; i < root.Len() && !found; i++ {
+				v, _ := root.Index(i)
+				if child, isStack := nativeOf(v); isStack {
+					ins.fn(child)
+					found = true
+				}
+			}
+			if !found {
+				return "", false
+			}
+			u, ue := root.Unmarshal()
+			nb := stk.Basic().SetNoNesting(true)
+			for i := 0; i < root.Len(); i++ {
+				v, _ := root.Index(i)
+				nb.Push(v)
+			}
+			return fmt.Sprintf("isequal:%v/%v string:%q nesting:%v unmarshal-len:%d/%v refused-by-no-nesting:%d",
+				root.IsEqual(other) == nil, other.IsEqual(root) == nil, root.String(), root.IsNesting(), len(u), ue != nil, root.Len()-nb.Len()), true
 		}
-		if !found {
-			return "", false
+		v0, ok := answers(&in.Insts[0])
+		if !ok {
+			return ""
 		}
-		return fmt.Sprintf("%v/%v", root.IsEqual(other) == nil, other.IsEqual(root) == nil), true
-	}
-	v0, ok := verdict(&in.Insts[0])
-	if !ok {
-		return ""
-	}
-	for k := 1; k < len(in.Insts); k++ {
-		if vk, ok := verdict(&in.Insts[k]); ok && vk != v0 {
-			return fmt.Sprintf("a nested Stack with its own equality policy: parent.IsEqual(native copy)/reverse = %s with native children, %s in instantiation %d", v0, vk, k)
+		for k := 1; k < len(in.Insts); k++ {
+			if vk, ok := answers(&in.Insts[k]); ok && vk != v0 {
+				return fmt.Sprintf("a nested Stack with its own %s: the parent answers %s with native children, %s in instantiation %d", ins.name, v0, vk, k)
+			}
 		}
 	}
 	return ""
